@@ -500,6 +500,10 @@ def run_poison(sc):
             notes = w.notifications_for(poison_arn)
             if notes and w.terminal(poison_arn) is None:
                 fails.append(("poison-execution-stuck-running", "announced RUNNING, never ended"))
+            if not notes and sc.get("type", "STANDARD") == "STANDARD":
+                # StartExecution answered 200 with this ARN: the execution exists for its caller and has to end FAILED, not vanish without a record or a notification
+                st_d, r_d = w.describe_execution(poison_arn)
+                fails.append(("poison-execution-vanished", "StartExecution returned %s; no notification was ever published and DescribeExecution answers %s %r" % (poison_arn, st_d, r_d)))
             d = w.terminal(poison_arn)
             if d is not None and d["status"] not in ("FAILED", "SUCCEEDED"):
                 fails.append(("poison-execution-odd-status", repr(d["status"])))
